@@ -668,6 +668,7 @@ int main(int argc, char **argv)
     while (vh_next_case()) {
         if (VH_CASE_TRY()) {
             int k = (int) (vh_case_idx % K_NCLASS);
+            if (getenv("C05_CLASS")) k = atoi(getenv("C05_CLASS")) % K_NCLASS;     /* debugging aid: force one class */
             int what = (int) ((vh_case_idx / K_NCLASS) % 3);
             if (what < 2) scenario_dup(k); else scenario_comp(k);
             if ((vh_case_idx % 997) == 0) vh_sample("case %ld: class %s, %s scenario", vh_case_idx, KNAME[k], what < 2 ? "dup/independence" : "comparison laws");
